@@ -176,6 +176,13 @@ func (t *Token) validate() error {
 		errs = errors.Join(errs, fmt.Errorf("token nonce too small"))
 	}
 
+	if err := parse.ValidateTimestamp(t.notBefore); err != nil {
+		errs = errors.Join(errs, fmt.Errorf("notBefore: %w", err))
+	}
+	if err := parse.ValidateTimestamp(t.expiration); err != nil {
+		errs = errors.Join(errs, fmt.Errorf("expiration: %w", err))
+	}
+
 	return errs
 }
 
